@@ -73,34 +73,32 @@ class Ctx:
 
 
 # ---------------------------------------------------------------- harness
-def build_harness(ctx, race=False):
-    """go build -tags verif of /verif/harness against /repo's current working tree."""
-    out = os.path.join(ctx.scratch, "vdrive-race" if race else "vdrive")
+def build_harness(ctx, prog, race=False):
+    """go build -tags verif of /verif/harness/<prog> against /repo's current working tree."""
+    out = os.path.join(ctx.scratch, "vdrive-%s%s" % (prog, "-race" if race else ""))
     if os.path.exists(out):
         return out
-    # go.sum must be the repo's (offline, GOFLAGS=-mod=mod)
-    src = os.path.join(ctx.scratch, "hsrc-race" if race else "hsrc")
-    shutil.copytree(HARNESS, src)
-    gosum = os.path.join(REPO, "go.sum")
-    if os.path.exists(gosum):
-        shutil.copy(gosum, os.path.join(src, "go.sum"))
-    if REPO != "/repo":
-        p = os.path.join(src, "go.mod")
-        s = open(p).read().replace("=> /repo", "=> " + REPO)
-        open(p, "w").write(s)
-    cmd = ["go", "build", "-tags", "verif"] + (["-race"] if race else []) + ["-o", out, "."]
+    src = os.path.join(ctx.scratch, "hsrc")
+    if not os.path.exists(src):
+        shutil.copytree(HARNESS, src)
+        gosum = os.path.join(REPO, "go.sum")
+        if os.path.exists(gosum):       # go.sum must be the repo's (offline, GOFLAGS=-mod=mod)
+            shutil.copy(gosum, os.path.join(src, "go.sum"))
+        if REPO != "/repo":
+            p = os.path.join(src, "go.mod")
+            s = open(p).read().replace("=> /repo", "=> " + REPO)
+            open(p, "w").write(s)
+    cmd = ["go", "build", "-tags", "verif"] + (["-race"] if race else []) + ["-o", out, "./" + prog]
     t = time.time()
     r = subprocess.run(cmd, cwd=src, env=goenv(), capture_output=True, text=True)
     if r.returncode != 0:
         raise Infra("harness build failed:\n" + r.stdout + r.stderr)
-    ctx.cmds.append("(cd harness && %s)  # %.1fs" % (" ".join(cmd), time.time() - t))
-    if not race:
-        ctx.vdrive = out
+    ctx.cmds.append("(cd harness && %s)  # %.1fs" % (" ".join(cmd[:-3] + ["./" + prog]), time.time() - t))
     return out
 
 
-def vdrive(ctx, args, stdin=None, timeout=1800, race=False, env=None):
-    exe = build_harness(ctx, race)
+def vdrive(ctx, prog, args, stdin=None, timeout=1800, race=False, env=None):
+    exe = build_harness(ctx, prog, race)
     e = goenv()
     e["VERIF_SEED"] = str(ctx.seed)
     e["VERIF_TIER"] = ctx.tier
@@ -109,9 +107,9 @@ def vdrive(ctx, args, stdin=None, timeout=1800, race=False, env=None):
     try:
         r = subprocess.run([exe] + args, input=stdin, capture_output=True, text=True, timeout=timeout, env=e)
     except subprocess.TimeoutExpired:
-        raise Infra("vdrive %s timed out after %ds" % (" ".join(args), timeout))
+        raise Infra("vdrive %s %s timed out after %ds" % (prog, " ".join(args), timeout))
     if r.returncode != 0:
-        raise Infra("vdrive %s exited %d:\n%s" % (" ".join(args), r.returncode, (r.stderr or r.stdout)[-4000:]))
+        raise Infra("vdrive %s %s exited %d:\n%s" % (prog, " ".join(args), r.returncode, (r.stderr or r.stdout)[-4000:]))
     return r.stdout
 
 
@@ -136,7 +134,7 @@ def drive(ctx, prop_cmd, inputs, extra_args=(), timeout=1800, race=False, env=No
     d = ctx.dir("drv")
     fin, fout = os.path.join(d, "in.ndjson"), os.path.join(d, "out.ndjson")
     write_ndjson(fin, inputs)
-    vdrive(ctx, [prop_cmd, "exec", fin, fout] + list(extra_args), timeout=timeout, race=race, env=env)
+    vdrive(ctx, prop_cmd, ["exec", fin, fout] + list(extra_args), timeout=timeout, race=race, env=env)
     out = read_ndjson(fout)
     if len(out) != len(inputs):
         raise Infra("driver %s returned %d events for %d inputs" % (prop_cmd, len(out), len(inputs)))
@@ -145,6 +143,7 @@ def drive(ctx, prop_cmd, inputs, extra_args=(), timeout=1800, race=False, env=No
 
 # ---------------------------------------------------------------- TLC
 _STAT = re.compile(r"(\d+) states generated, (\d+) distinct states found")
+_SIM = re.compile(r"The number of states generated: (\d+)")
 
 
 class TLCRun:
@@ -200,6 +199,8 @@ def run_tlc(ctx, module, cfg=None, files=None, workers=1, timeout=900, args=(), 
     res.dir, res.out, res.rc, res.wall = d, r.stdout + r.stderr, r.returncode, time.time() - t
     m = _STAT.findall(res.out)
     res.generated, res.distinct = (int(m[-1][0]), int(m[-1][1])) if m else (0, 0)
+    if not m and _SIM.search(res.out):
+        res.generated = res.distinct = int(_SIM.findall(res.out)[-1])
     ctx.states += res.generated
     ctx.distinct += res.distinct
     ctx.transitions += max(res.generated - 1, 0)
@@ -214,9 +215,14 @@ def run_tlc(ctx, module, cfg=None, files=None, workers=1, timeout=900, args=(), 
     return res
 
 
-def tlc_printed(res, tag):
-    """Values printed by PrintT(<<"tag", ...>>) are not parsed; specs write JSON files instead."""
-    raise NotImplementedError
+def tlc_printed(res, tag="GEN"):
+    """Values a spec printed with PrintT(<<"GEN", ToJson(v)>>) (behaviour generation), parsed back from TLC's output."""
+    out = []
+    for line in res.out.splitlines():
+        mm = re.match(r'^<<"%s", "(.*)">>$' % tag, line.strip())
+        if mm:
+            out.append(json.loads(mm.group(1).replace('\\"', '"').replace("\\\\", "\\")))
+    return out
 
 
 def shard_events(events, n, stateless, reset_op="reset"):
@@ -272,10 +278,17 @@ def validate(ctx, module, events, cfg=None, shards=None, stateless=True, timeout
 
 # ---------------------------------------------------------------- verdicts
 def load_known():
+    """known_findings.json (committed index) plus known/<ID>.json (per-property lists, same entry format)."""
+    out = []
     p = os.path.join(VERIF, "known_findings.json")
-    if not os.path.exists(p):
-        return []
-    return [k for k in json.load(open(p)).get("findings", [])]
+    if os.path.exists(p):
+        out += json.load(open(p)).get("findings", [])
+    d = os.path.join(VERIF, "known")
+    if os.path.isdir(d):
+        for f in sorted(os.listdir(d)):
+            if f.endswith(".json"):
+                out += json.load(open(os.path.join(d, f)))
+    return out
 
 
 def _get(ev, path):
